@@ -1095,3 +1095,108 @@ class EpsDom(RealDom):
         if (op == 'fmul' and ((isinstance(a, Fraction) and a in (0, 1)) or (isinstance(b, Fraction) and b in (0, 1)))): return r
         if op in ('fadd', 'fsub') and ((isinstance(a, Fraction) and a == 0) or (isinstance(b, Fraction) and b == 0)): return r
         return s._round(r, op)
+
+# ------------------------------------------------------------------ libstdc++ red-black tree support (compiled library code reached from std::map)
+def _rb(ex, st):
+    I64 = IntTy(64); I32 = IntTy(32)
+    class N:
+        @staticmethod
+        def color(n): return ex.load(st, n, I32)
+        @staticmethod
+        def setcolor(n, c): ex.store(st, n, I32, c)
+        @staticmethod
+        def parent(n): return ex.load(st, n + 8, I64)
+        @staticmethod
+        def left(n): return ex.load(st, n + 16, I64)
+        @staticmethod
+        def right(n): return ex.load(st, n + 24, I64)
+        @staticmethod
+        def setparent(n, v): ex.store(st, n + 8, I64, v)
+        @staticmethod
+        def setleft(n, v): ex.store(st, n + 16, I64, v)
+        @staticmethod
+        def setright(n, v): ex.store(st, n + 24, I64, v)
+    return N
+RED, BLACK = 0, 1
+def ext_rb_insert(ex, st, fr, args, ins):
+    """std::_Rb_tree_insert_and_rebalance(bool insert_left, node* x, node* p, node_base& header) - transcription of libstdc++'s tree.cc"""
+    insert_left, x, p, header = args
+    T = _rb(ex, st)
+    def root(): return T.parent(header)
+    def setroot(v): T.setparent(header, v)
+    def rot_left(x):
+        y = T.right(x); T.setright(x, T.left(y))
+        if T.left(y): T.setparent(T.left(y), x)
+        T.setparent(y, T.parent(x))
+        if x == root(): setroot(y)
+        elif x == T.left(T.parent(x)): T.setleft(T.parent(x), y)
+        else: T.setright(T.parent(x), y)
+        T.setleft(y, x); T.setparent(x, y)
+    def rot_right(x):
+        y = T.left(x); T.setleft(x, T.right(y))
+        if T.right(y): T.setparent(T.right(y), x)
+        T.setparent(y, T.parent(x))
+        if x == root(): setroot(y)
+        elif x == T.right(T.parent(x)): T.setright(T.parent(x), y)
+        else: T.setleft(T.parent(x), y)
+        T.setright(y, x); T.setparent(x, y)
+    T.setparent(x, p); T.setleft(x, 0); T.setright(x, 0); T.setcolor(x, RED)
+    if insert_left & 1:
+        T.setleft(p, x)
+        if p == header: setroot(x); T.setright(header, x)
+        elif p == T.left(header): T.setleft(header, x)
+    else:
+        T.setright(p, x)
+        if p == T.right(header): T.setright(header, x)
+    while x != root() and T.color(T.parent(x)) == RED:
+        xpp = T.parent(T.parent(x))
+        if T.parent(x) == T.left(xpp):
+            y = T.right(xpp)
+            if y and T.color(y) == RED:
+                T.setcolor(T.parent(x), BLACK); T.setcolor(y, BLACK); T.setcolor(xpp, RED); x = xpp
+            else:
+                if x == T.right(T.parent(x)): x = T.parent(x); rot_left(x)
+                T.setcolor(T.parent(x), BLACK); T.setcolor(xpp, RED); rot_right(xpp)
+        else:
+            y = T.left(xpp)
+            if y and T.color(y) == RED:
+                T.setcolor(T.parent(x), BLACK); T.setcolor(y, BLACK); T.setcolor(xpp, RED); x = xpp
+            else:
+                if x == T.left(T.parent(x)): x = T.parent(x); rot_right(x)
+                T.setcolor(T.parent(x), BLACK); T.setcolor(xpp, RED); rot_left(xpp)
+    T.setcolor(root(), BLACK)
+    return None
+def ext_rb_increment(ex, st, fr, args, ins):
+    T = _rb(ex, st); x = args[0]
+    if T.right(x):
+        x = T.right(x)
+        while T.left(x): x = T.left(x)
+        return x
+    y = T.parent(x)
+    while x == T.right(y): x = y; y = T.parent(y)
+    if T.right(x) != y: x = y
+    return x
+def ext_rb_decrement(ex, st, fr, args, ins):
+    T = _rb(ex, st); x = args[0]
+    if T.color(x) == RED and T.parent(T.parent(x)) == x: return T.right(x)
+    if T.left(x):
+        y = T.left(x)
+        while T.right(y): y = T.right(y)
+        return y
+    y = T.parent(x)
+    while x == T.left(y): x = y; y = T.parent(y)
+    return y
+DEFAULT_EXT.update({'_ZSt29_Rb_tree_insert_and_rebalancebPSt18_Rb_tree_node_baseS0_RS_': ext_rb_insert,
+                    '_ZSt18_Rb_tree_incrementPSt18_Rb_tree_node_base': ext_rb_increment, '_ZSt18_Rb_tree_incrementPKSt18_Rb_tree_node_base': ext_rb_increment,
+                    '_ZSt18_Rb_tree_decrementPSt18_Rb_tree_node_base': ext_rb_decrement, '_ZSt18_Rb_tree_decrementPKSt18_Rb_tree_node_base': ext_rb_decrement})
+
+def occurs(term, sym):
+    """syntactic occurrence of an uninterpreted constant in a z3 term"""
+    seen = set(); stack = [term]; sid = sym.get_id()
+    while stack:
+        t = stack.pop()
+        if t.get_id() in seen: continue
+        seen.add(t.get_id())
+        if t.get_id() == sid: return True
+        stack.extend(t.children())
+    return False
